@@ -68,6 +68,10 @@ func (s *recSigner) sign(ctx context.Context, b []byte) (string, error) {
 	}
 	h := sha256.Sum256(b)
 	sig := fmt.Sprintf("sig-%x-%d", h[:8], s.n)
+	if s.n%4 == 0 {
+		// a signature is a string, not necessarily a printable one (control characters, DEL, quotes, a backslash)
+		sig = fmt.Sprintf("sig\x01\t\x7f\"\\-%x-%d", h[:8], s.n)
+	}
 	if s.calls == nil {
 		s.calls = map[string]string{}
 	}
@@ -230,6 +234,9 @@ func TestC18(t *testing.T) {
 				payload, dataSrc = p, p
 			}
 			created := time.Unix(int64(cr.Intn(2_000_000_000)), int64(cr.Intn(1_000_000_000))).UTC()
+			if cr.Intn(10) == 0 {
+				created = time.Time{} // an event that was not stamped (built by a node, or by a caller of Process)
+			}
 			// the format table the event arrives with: usually another format's value; sometimes none at all
 			// (nil table), sometimes an earlier value under the very key this formatter stores to
 			pre := map[string][]byte{"other": []byte("untouched")}
